@@ -121,14 +121,14 @@ type readerState struct {
 	timing      bool
 	// concurrent SetOffset (seeker mode): the position is then one of up to
 	// two values until the next delivery tells which
-	alt           int64 // alternative position, -2 = none
-	inFetch       bool
-	seeked        bool    // a SetOffset overlapped the FetchMessage call in progress
-	cands         []int64 // positions the call in progress may still be served from
-	seekInFlight  bool
-	pendingTarget int64
+	alt                int64 // alternative position, -2 = none
+	inFetch            bool
+	seeked             bool    // a SetOffset overlapped the FetchMessage call in progress
+	cands              []int64 // positions the call in progress may still be served from
+	seekInFlight       bool
+	pendingTarget      int64
 	fetchRetDuringSeek bool
-	lastDelivered int64
+	lastDelivered      int64
 }
 
 // storedAtOrAfter returns the stored record with the smallest offset >= off
